@@ -8,6 +8,7 @@ correspondence run.
 -/
 import RqModel.Model.CdcPipe
 import RqModel.Lemmas.Cdc7
+import RqModel.Gen.CdcPipe
 namespace C25
 open RqModel.CdcPipe RqModel.Fifo
 
@@ -202,23 +203,104 @@ theorem nondecreasing_within_tenure (b : Nat) (pre seg : List Op)
 
 /-! ### what a HWM broadcast promises -/
 
-/-- THE FULL STATEMENT for the node's own broadcasts (false, see the witness): whenever this
-node has broadcast HWM `h`, every change at or below `h` has been delivered (here, or
-according to another node's announcement). Other nodes prune their queues on the strength
-of this promise, so at-least-once across leader changes rests on it. -/
-def broadcast_truthful_full : Prop :=
+/-- THE STATEMENT for the node's own broadcasts: whenever this node has broadcast HWM `h`,
+every change at or below `h` has been delivered (here, or according to another node's
+announcement). Other nodes prune their queues on the strength of this promise, so
+at-least-once ACROSS nodes rests on it. `fromFirstKey` = `NewService` derives the start HWM
+from the first FIFO key (before the `fix:` commit) instead of starting at 0. -/
+def broadcast_truthful_full (fromFirstKey : Bool) : Prop :=
   ∀ (b : Nat) (ops : List Op), 0 < b → wfOps 0 ops →
-    ∀ h ∈ (run { batchSz := b } ops).broadcasts, ∀ c ∈ changesOf ops, c.1 ≤ h →
-      deliveredB (run { batchSz := b } ops) c = true ∨ c.1 ≤ (run { batchSz := b } ops).maxIn
+    ∀ h ∈ (run { batchSz := b, hwmFromFirstKey := fromFirstKey } ops).broadcasts, ∀ c ∈ changesOf ops, c.1 ≤ h →
+      deliveredB (run { batchSz := b, hwmFromFirstKey := fromFirstKey } ops) c = true ∨
+      c.1 ≤ (run { batchSz := b, hwmFromFirstKey := fromFirstKey } ops).maxIn
 
-/-- After a restart `NewService` sets the HWM to (first FIFO key - 1). With batch size 2 the
-entries 5 and 6 sit in ONE item keyed 6, so the restarted node believes 5 is done; as
-leader with the endpoint down its ticker broadcasts 5 although change 5.0 was never sent. -/
-theorem broadcast_truthful_witness : ¬ broadcast_truthful_full := by
+/-- The repaired defect. `NewService` used to set the HWM to (first FIFO key - 1). With batch
+size 2 the entries 5 and 6 sit in ONE item keyed 6, so the restarted node believed 5 was
+done; leading with the endpoint down its ticker broadcast 5 although change 5.0 was never
+sent. On two real services this loses change 5.0 for good (a second node prunes it, leads,
+delivers 6, broadcasts 6, and the first node prunes its only copy). With the start HWM 0 the
+same history broadcasts nothing. (`broadcast_truthful_full false` itself is NOT proved: the
+cross-node composition stays an assumption of `at_least_once_partial`.) -/
+theorem broadcast_truthful_witness :
+    ¬ broadcast_truthful_full true ∧
+    (run { batchSz := 2 } [.entry ⟨5, false, [1]⟩, .entry ⟨6, false, [1]⟩, .restart, .endpoint false,
+        .leader true, .tick]).broadcasts = [] := by
+  constructor
+  · intro h
+    have := h 2 [.entry ⟨5, false, [1]⟩, .entry ⟨6, false, [1]⟩, .restart, .endpoint false, .leader true, .tick]
+      (by decide) (by simp [wfOps, single, nonEmptyStmts]) 5 (by decide) (5, 0) (by decide) (by decide)
+    revert this
+    decide
+  · decide
+
+/-! ### the snapshot sync and groups still in the hand-off channel -/
+
+/-- cdc/service.go: the snapshot-sync case of `writeToBatcher` drains the hand-off channel
+before it writes the flush marker (the model's `drainOnSync = true`), and the leader loop
+keeps an unsent event across a stop (the model's `held` surviving `leader false`) -/
+theorem service_facts :
+    RqModel.Gen.CdcPipe.syncDrainsHandoff = some true ∧
+    RqModel.Gen.CdcPipe.leaderKeepsUnsent = some true := by decide
+
+/-- with the drain, operations arriving while groups are still in the channel behave exactly
+like operations at quiescent points: the histories of `at_least_once_partial` cover them -/
+theorem queued_entry_is_entry (s : St) (e : Entry) :
+    drainHand (stepHand true { s := s, queued := [] } (.entryQueued e)) = { s := stepOp s (.entry e), queued := [] } := rfl
+
+theorem runHand_ops (q : StQ) (ops : List Op) (h : q.queued = []) :
+    (runHand true q (ops.map OpQ.op)).s = run q.s ops ∧ (runHand true q (ops.map OpQ.op)).queued = [] := by
+  induction ops generalizing q with
+  | nil => exact ⟨rfl, h⟩
+  | cons o rest ih =>
+    show (runHand true (stepHand true q (.op o)) (rest.map OpQ.op)).s = run (stepOp q.s o) rest ∧
+      (runHand true (stepHand true q (.op o)) (rest.map OpQ.op)).queued = []
+    have hd : drainHand q = q := by
+      cases q with
+      | mk s queued => simp only at h; subst h; rfl
+    have hstep : stepHand true q (.op o) = { s := stepOp q.s o, queued := [] } := by
+      cases o <;> simp [stepHand, hd]
+    rw [hstep]
+    exact ih _ rfl
+
+/-- The repaired defect (`drainOnSync = false`): the flush of a snapshot sync overtook the
+group of an entry still in the channel; after the snapshot the entry is no longer replayed,
+so a restart lost it — observed end to end on the real service (60 entries, forced
+schedule: entries 46.. never reached the endpoint). With the drain it is delivered. -/
+theorem sync_overtake_witness :
+    (runHand false { s := { batchSz := 8 } }
+      ([.entryQueued ⟨5, false, [1]⟩, .op .sync, .op .restart] ++ heal.map OpQ.op)).s.delivered = [] ∧
+    (runHand true { s := { batchSz := 8 } }
+      ([.entryQueued ⟨5, false, [1]⟩, .op .sync, .op .restart] ++ heal.map OpQ.op)).s.delivered =
+        [(5, [⟨5, [(5, 0)]⟩])] := by decide
+
+/-! ### order of the LABELS within a tenure -/
+
+/-- labels (entry indexes carried by the groups) of a list of POSTs, in order -/
+def labels (d : List (Nat × Batch)) : List Nat := d.flatMap fun p => p.2.map (·.idx)
+
+/-- THE FULL STATEMENT of the property's second sentence at the level of labels: between
+two leadership changes the labels that reach the endpoint never decrease. -/
+def label_order_full : Prop :=
+  ∀ (b : Nat) (pre seg : List Op), 0 < b → wfOps 0 (pre ++ seg) →
+    (∀ op ∈ seg, (∀ x, op ≠ .leader x) ∧ op ≠ .restart) →
+    ∀ D, (run { batchSz := b } (pre ++ seg)).delivered = (run { batchSz := b } pre).delivered ++ D →
+      (labels D).Pairwise (· ≤ ·)
+
+/-- False even for single-statement entries: after a restart raft replays entries that are
+still queued, and a replayed entry can share a batch with one that was not queued yet. Batch
+size 3: items keyed 5 and 6 carry entries 5 and 6; entry 7 is still in the batcher when the
+node restarts; the replay forms a new item keyed 7 carrying 5,6,7. One later tenure delivers
+the labels 5, 6, 5, 6, 7. Redelivery is inherent to at-least-once; what holds is the order
+of the POST keys (`nondecreasing_within_tenure`). The multi-statement finding breaks label
+order too (77,0,0: `at_least_once_witness_mislabelled`). -/
+theorem label_order_witness : ¬ label_order_full := by
   intro h
-  have := h 2 [.entry ⟨5, false, [1]⟩, .entry ⟨6, false, [1]⟩, .restart, .endpoint false, .leader true, .tick]
-    (by decide) (by simp [wfOps, single, nonEmptyStmts]) 5 (by decide) (5, 0) (by decide) (by decide)
-  revert this
+  have key := h 3
+    [.entry ⟨5, false, [1]⟩, .timer, .entry ⟨6, false, [1]⟩, .timer, .entry ⟨7, false, [1]⟩, .restart,
+     .endpoint false, .leader true]
+    [.endpoint true] (by decide) (by simp [wfOps, single, nonEmptyStmts]) (by simp)
+    [(5, [⟨5, [(5, 0)]⟩]), (6, [⟨6, [(6, 0)]⟩]), (7, [⟨5, [(5, 0)]⟩, ⟨6, [(6, 0)]⟩, ⟨7, [(7, 0)]⟩])] (by decide)
+  revert key
   decide
 
 /-- the same with the ghost field spelled out: `maxHwmIn ops` is the highest HWM another
